@@ -104,7 +104,7 @@ theorem readInstance_resync (ops : FloatOps F) (lex : LexCfg) (cfg : RWCfg) (d :
     (inst : MInst F) (hfind : st.mgr.find? r.id = some inst) (hnew : inst.state = .new) (hcx : inst.complex = false)
     (p : MPart F) (hparts : inst.parts = [p]) (e : EntityD) (hent : d.entity? p.name = some e)
     (sev0 : Sev) (vals : List (MVal F))
-    (hrd : ∀ L sk, ∃ sR, instSTEPread { ops := ops, lex := lex, cfg := cfg, dict := d, lookup := Mgr.lookup d st.mgr } strict
+    (hrd : ∀ L, ∃ sR, instSTEPread { ops := ops, lex := lex, cfg := cfg, dict := d, lookup := Mgr.lookup d st.mgr } strict
         e.attrs (G L (40 :: (renderParams r.ps ++ r.t4 rest)) sk) = .ok ⟨sev0, vals, sR⟩ ∧ (readTokenSeparator sR).skipws = false)
     (hsev : sev0.toInt ≤ Sev.warning.toInt) :
     ∃ l', readInstance ops lex cfg d strict st =
@@ -157,7 +157,7 @@ theorem readInstance_resync (ops : FloatOps F) (lex : LexCfg) (cfg : RWCfg) (d :
         (40 :: (renderParams r.ps ++ r.t4 rest)) sk :=
     readTokenSeparator_seps r.s3 h3 _ 40 _ sk (by decide) (by decide)
   rw [e4]
-  obtain ⟨sR, hrd', hsk⟩ := hrd (r.s3.reverse ++ ((r.n0 :: r.ns).reverse ++ (r.s2.reverse ++ 61 :: (r.s1.reverse ++ (r.ds.reverse ++ l))))) sk
+  obtain ⟨sR, hrd', hsk⟩ := hrd (r.s3.reverse ++ ((r.n0 :: r.ns).reverse ++ (r.s2.reverse ++ 61 :: (r.s1.reverse ++ (r.ds.reverse ++ l)))))
   have hdec : decide (sev0.toInt ≤ Sev.warning.toInt) = true := by simpa using hsev
   simp only [hcx, Bool.false_eq_true, if_false, hparts, hrs, hent]
   rw [hrd']
@@ -177,6 +177,81 @@ theorem readInstance_resync (ops : FloatOps F) (lex : LexCfg) (cfg : RWCfg) (d :
   rw [hsi']
   exact ⟨_, rfl⟩
 
+/-- the other path of `ReadInstance`: the record's parameter list is read to the stream position right after its `)`,
+    with a severity that does not trigger the resynchronisation (or in a source without it): the `;` is read -/
+theorem readInstance_semi (ops : FloatOps F) (lex : LexCfg) (cfg : RWCfg) (d : Dict) (strict : Bool) (st : P2 F)
+    (r : Rec F) (hlex : r.Lex) (l rest : List Byte) (sk : Bool) (hs : st.s = G l (r.text rest) sk)
+    (inst : MInst F) (hfind : st.mgr.find? r.id = some inst) (hnew : inst.state = .new) (hcx : inst.complex = false)
+    (p : MPart F) (hparts : inst.parts = [p]) (e : EntityD) (hent : d.entity? p.name = some e)
+    (sev0 : Sev) (vals : List (MVal F)) (sk1 : Bool)
+    (hrd : ∀ L, instSTEPread { ops := ops, lex := lex, cfg := cfg, dict := d, lookup := Mgr.lookup d st.mgr } strict
+        e.attrs (G L (40 :: (renderParams r.ps ++ r.t4 rest)) sk) =
+          .ok ⟨sev0, vals, G ((40 :: renderParams r.ps).reverse ++ L) (r.t4 rest) sk1⟩)
+    (hno : (cfg.errorResyncsFromStart && decide (sev0.toInt ≤ Sev.warning.toInt)) = false) :
+    ∃ l', readInstance ops lex cfg d strict st =
+      .ok { s := G l' rest sk1, inst := some { inst with parts := [{ p with vals := vals }], state := stateOf sev0 },
+            reported := some sev0, left := some .null } := by
+  obtain ⟨dne, ddig, dhi, h1, h2, h3, h4, hn0, hns, pne⟩ := hlex
+  obtain ⟨hn0s, hn047, hn038, hn040, hn033, hn035, hn0d, hn0k⟩ := alpha_facts hn0
+  obtain ⟨c, u, hcu⟩ : ∃ c u, r.ds = c :: u := by
+    cases hd : r.ds with
+    | nil => exact absurd hd dne
+    | cons c u => exact ⟨c, u, rfl⟩
+  have hcd : isDigit c = true := by rw [hcu] at ddig; simp at ddig; exact ddig.1
+  have hc47 : c ≠ 47 := by intro h; rw [h] at hcd; exact absurd hcd (by decide)
+  obtain ⟨x, xr, hXe, hxd⟩ : ∃ x xr, r.t1 rest = x :: xr ∧ isDigit x = false :=
+    seps_then r.s1 h1 61 _ (fun c => isDigit c = false) (fun c h => space_not_digit h) (by decide) (by decide)
+  have e0 : readComment (G l (r.text rest) sk) = G l (r.text rest) sk := by
+    unfold Rec.text; rw [hcu]; exact readComment_none l c _ sk (digit_not_space hcd) hc47
+  have e1 : (G l (r.text rest) sk).extractInt32 = (some r.id, G (r.ds.reverse ++ l) (r.t1 rest) sk) := by
+    unfold Rec.text; rw [hXe]; exact extractInt32_digits r.ds dne ddig dhi l x xr sk hxd
+  have e2 : readTokenSeparator (G (r.ds.reverse ++ l) (r.t1 rest) sk) = G (r.s1.reverse ++ (r.ds.reverse ++ l)) (61 :: r.t2 rest) sk :=
+    readTokenSeparator_seps r.s1 h1 (r.ds.reverse ++ l) 61 _ sk (by decide) (by decide)
+  have e3 : readTokenSeparator (G (61 :: (r.s1.reverse ++ (r.ds.reverse ++ l))) (r.t2 rest) sk) =
+      G (r.s2.reverse ++ 61 :: (r.s1.reverse ++ (r.ds.reverse ++ l))) (r.n0 :: (r.ns ++ r.t3 rest)) sk :=
+    readTokenSeparator_seps r.s2 h2 _ r.n0 _ sk hn0s hn047
+  unfold readInstance
+  rw [hs, e0]
+  simp only [e1, Option.getD_some, hfind, hnew, bne_self_eq_false, Bool.false_eq_true, if_false]
+  rw [e2, getInto_good 0 _ 61 _ sk]
+  simp only [bne_self_eq_false, Bool.false_eq_true, if_false]
+  rw [e3, markStart_G]
+  simp only
+  rw [peekC_good]
+  have e38 : (r.n0 == 38) = false := by simp [hn038]
+  have e40 : (r.n0 == 40) = false := by simp [hn040]
+  have e33 : (r.n0 == 33) = false := by simp [hn033]
+  simp only [e38, e40, Bool.false_eq_true, if_false, bind, Except.bind, pure, Except.pure]
+  rw [readTokenSeparator_none _ r.n0 _ sk hn0s hn047, peekC_good]
+  simp only [e33, Bool.false_eq_true, if_false]
+  obtain ⟨y, yr, hYe, hyk⟩ : ∃ y yr, r.t3 rest = y :: yr ∧ kwc y = false :=
+    seps_then r.s3 h3 40 _ (fun c => kwc c = false) (fun c h => space_not_kwc h) (by decide) (by decide)
+  have hkw : (r.n0 :: r.ns).all kwc = true := by simp only [List.all_cons, hn0k, Bool.true_and]; exact hns
+  have ekw : readStdKeyword (G (r.s2.reverse ++ 61 :: (r.s1.reverse ++ (r.ds.reverse ++ l))) (r.n0 :: (r.ns ++ r.t3 rest)) sk) =
+      (r.n0 :: r.ns, G ((r.n0 :: r.ns).reverse ++ (r.s2.reverse ++ 61 :: (r.s1.reverse ++ (r.ds.reverse ++ l)))) (r.t3 rest) sk) := by
+    rw [hYe]
+    exact readStdKeyword_spec r.n0 r.ns hkw hn0s y hyk _ yr sk
+  rw [ekw]
+  simp only
+  have e4 : readTokenSeparator (G ((r.n0 :: r.ns).reverse ++ (r.s2.reverse ++ 61 :: (r.s1.reverse ++ (r.ds.reverse ++ l)))) (r.t3 rest) sk) =
+      G (r.s3.reverse ++ ((r.n0 :: r.ns).reverse ++ (r.s2.reverse ++ 61 :: (r.s1.reverse ++ (r.ds.reverse ++ l)))))
+        (40 :: (renderParams r.ps ++ r.t4 rest)) sk :=
+    readTokenSeparator_seps r.s3 h3 _ 40 _ sk (by decide) (by decide)
+  rw [e4]
+  have hrd' := hrd (r.s3.reverse ++ ((r.n0 :: r.ns).reverse ++ (r.s2.reverse ++ 61 :: (r.s1.reverse ++ (r.ds.reverse ++ l)))))
+  simp only [hcx, Bool.false_eq_true, if_false, hparts, hent]
+  rw [hrd']
+  simp only
+  have e5 : ∀ L, readTokenSeparator (G L (r.t4 rest) sk1) = G (r.s4.reverse ++ L) (59 :: rest) sk1 :=
+    fun L => readTokenSeparator_seps r.s4 h4 L 59 rest sk1 (by decide) (by decide)
+  rw [e5, peekC_good]
+  have e69 : ((59 : Byte) != 69) = true := by decide
+  have hno' : (cfg.errorResyncsFromStart && decide (sev0.toInt ≤ Sev.warning.toInt)) = false := hno
+  cases hm : cfg.missingSemicolonReported <;>
+    simp only [Bool.false_eq_true, if_false, if_true, beq_self_eq_true, e69, hno',
+      shiftInto_good _ _ 59 rest sk1 (by decide)] <;>
+    exact ⟨_, rfl⟩
+
 /-! ## pass 2 over records with any per-record outcome -/
 
 /-- a record, the layout after its `;`, and what `ReadInstance` makes of it: the instance as it is left in the manager
@@ -189,14 +264,14 @@ structure Step (F : Type) where
 
 def Step.rg (x : Step F) : Rec F × List Byte := (x.r, x.g)
 
-/-- `ReadInstance` on the record, in any state whose manager holds the instance pass 1 made for it: the stream is left
-    right after the record's `;` -/
+/-- `ReadInstance` on the record (`skipws` off, as in a data section), in any state whose manager holds the instance
+    pass 1 made for it: the stream is left right after the record's `;`, `skipws` still off -/
 def StepOK (ops : FloatOps F) (lex : LexCfg) (cfg : RWCfg) (d : Dict) (strict : Bool) (lk : Lookup) (x : Step F) : Prop :=
   Seps x.g ∧ x.out.id = x.r.id ∧ keyOf x.out = keyOf (mkInst d x.rg) ∧
-  ∀ (st : P2 F) (l : List Byte) (sk : Bool) (rest : List Byte),
-    st.mgr.find? x.r.id = some (mkInst d x.rg) → Mgr.lookup d st.mgr = lk → st.s = G l (x.r.text rest) sk →
-    ∃ l' sk', readInstance ops lex cfg d strict st =
-      .ok { s := G l' rest sk', inst := some x.out, reported := some x.sev, left := some .null }
+  ∀ (st : P2 F) (l : List Byte) (rest : List Byte),
+    st.mgr.find? x.r.id = some (mkInst d x.rg) → Mgr.lookup d st.mgr = lk → st.s = G l (x.r.text rest) false →
+    ∃ l', readInstance ops lex cfg d strict st =
+      .ok { s := G l' rest false, inst := some x.out, reported := some x.sev, left := some .null }
 
 /-- the file error after the records' severities have been appended in order -/
 def errAfter (e : Sev) (xs : List (Step F)) : Sev := xs.foldl (fun e x => appendEntityError e x.sev) e
@@ -217,8 +292,8 @@ theorem renderRecs_head' (xs : List (Step F)) (sp tail : List Byte) :
 
 theorem readData2Loop_steps (ops : FloatOps F) (lex : LexCfg) (cfg : RWCfg) (d : Dict) (strict : Bool) (lk : Lookup)
     (sp tail : List Byte) (hsp : sp.all isSpace = true) :
-    ∀ (xs : List (Step F)) (st : P2 F) (pre : List (MInst F)) (g0 l : List Byte) (sk : Bool) (fuel : Nat),
-      Seps g0 → st.s = G l (g0 ++ renderRecs (xs.map Step.rg) (endsec sp tail)) sk → xs.length + 2 ≤ fuel →
+    ∀ (xs : List (Step F)) (st : P2 F) (pre : List (MInst F)) (g0 l : List Byte) (fuel : Nat),
+      Seps g0 → st.s = G l (g0 ++ renderRecs (xs.map Step.rg) (endsec sp tail)) false → xs.length + 2 ≤ fuel →
       st.mgr.insts = pre ++ xs.map (fun x => mkInst d x.rg) → (∀ i ∈ pre, ∀ x ∈ xs, i.id ≠ x.r.id) →
       (xs.map (·.r.id)).Nodup → Mgr.lookup d st.mgr = lk →
       (∀ x ∈ xs, StepOK ops lex cfg d strict lk x) →
@@ -227,11 +302,11 @@ theorem readData2Loop_steps (ops : FloatOps F) (lex : LexCfg) (cfg : RWCfg) (d :
   intro xs
   induction xs with
   | nil =>
-    intro st pre g0 l sk fuel hg0 hs hf hm _ _ _ _
-    obtain ⟨l', h⟩ := readData2Loop_end ops lex cfg d strict st g0 l sp tail sk hg0 hsp hs fuel (by simpa using hf)
-    exact ⟨_, h, ⟨by simpa using hm, rfl, rfl, rfl, rfl, rfl, ⟨l', sk, rfl⟩, by simp⟩⟩
+    intro st pre g0 l fuel hg0 hs hf hm _ _ _ _
+    obtain ⟨l', h⟩ := readData2Loop_end ops lex cfg d strict st g0 l sp tail false hg0 hsp hs fuel (by simpa using hf)
+    exact ⟨_, h, ⟨by simpa using hm, rfl, rfl, rfl, rfl, rfl, ⟨l', false, rfl⟩, by simp⟩⟩
   | cons x xs ih =>
-    intro st pre g0 l sk fuel hg0 hs hf hm hfresh hnd hlk hok
+    intro st pre g0 l fuel hg0 hs hf hm hfresh hnd hlk hok
     obtain ⟨hg, hid, hkey, hstep⟩ := hok x (by simp)
     have hnd' : (xs.map (·.r.id)).Nodup := (List.nodup_cons.mp hnd).2
     have hrid : ∀ y ∈ xs, x.r.id ≠ y.r.id := by
@@ -246,29 +321,29 @@ theorem readData2Loop_steps (ops : FloatOps F) (lex : LexCfg) (cfg : RWCfg) (d :
       exact fun h => hrid y hy h.symm
     match fuel, hf with
     | n + 1, hf =>
-      obtain ⟨l1, sk1, hri⟩ := hstep
-        { st with s := G (35 :: (g0.reverse ++ l)) (x.r.text (x.g ++ renderRecs (xs.map Step.rg) (endsec sp tail))) sk }
-        _ sk _ (by show st.mgr.find? _ = _; rw [hmgr]; exact find?_mid pre _ (mkInst d x.rg) hpre) hlk rfl
+      obtain ⟨l1, hri⟩ := hstep
+        { st with s := G (35 :: (g0.reverse ++ l)) (x.r.text (x.g ++ renderRecs (xs.map Step.rg) (endsec sp tail))) false }
+        _ _ (by show st.mgr.find? _ = _; rw [hmgr]; exact find?_mid pre _ (mkInst d x.rg) hpre) hlk rfl
       have hupd : st.mgr.update x.out = { insts := pre ++ x.out :: xs.map (fun x => mkInst d x.rg) } := by
         rw [hmgr]; exact update_mid pre _ (mkInst d x.rg) x.out hid hpre hpost
       unfold readData2Loop
       rw [hs]
       simp only [G_good, Bool.not_false, Bool.and_self, if_true, bind, Except.bind, List.map_cons, Step.rg, renderRecs]
-      simp only [readTokenSeparator_seps g0 hg0 l 35 _ sk (by decide) (by decide), shiftInto_good 0 _ 35 _ sk (by decide),
+      simp only [readTokenSeparator_seps g0 hg0 l 35 _ false (by decide) (by decide), shiftInto_good 0 _ 35 _ false (by decide),
         bne_self_eq_false, Bool.false_eq_true, if_false, pure, Except.pure]
       have hri' := hri
       try simp only [Step.rg] at hri'
       rw [hri']
       simp only
       have hap : applyOutcome st
-          { s := G l1 (x.g ++ renderRecs (xs.map Step.rg) (endsec sp tail)) sk1, inst := some x.out,
+          { s := G l1 (x.g ++ renderRecs (xs.map Step.rg) (endsec sp tail)) false, inst := some x.out,
             reported := some x.sev, left := some .null } =
           { st with mgr := st.mgr.update x.out, fileErr := appendEntityError st.fileErr x.sev, reported := x.sev :: st.reported,
-                    s := G l1 (x.g ++ renderRecs (xs.map Step.rg) (endsec sp tail)) sk1, total := st.total + 1, valid := st.valid + 1 } := rfl
+                    s := G l1 (x.g ++ renderRecs (xs.map Step.rg) (endsec sp tail)) false, total := st.total + 1, valid := st.valid + 1 } := rfl
       have hap' := hap
       try simp only [Step.rg] at hap'
       rw [hap', hupd]
-      rcases foundEndSec_gap x.g hg (xs.map Step.rg) sp tail hsp l1 sk1 with ⟨hnil, l2, hfe⟩ | ⟨l2, t, ht, hfe⟩
+      rcases foundEndSec_gap x.g hg (xs.map Step.rg) sp tail hsp l1 false with ⟨hnil, l2, hfe⟩ | ⟨l2, t, ht, hfe⟩
       · have hfe' := hfe
         try simp only [Step.rg] at hfe'
         simp only [hfe']
@@ -277,16 +352,16 @@ theorem readData2Loop_steps (ops : FloatOps F) (lex : LexCfg) (cfg : RWCfg) (d :
         obtain ⟨m, rfl⟩ : ∃ m, n = m + 1 := ⟨n - 1, by simp only [List.length_cons] at hf; omega⟩
         unfold readData2Loop
         simp only [G_good, Bool.not_true, Bool.and_false, Bool.false_eq_true, if_false, pure, Except.pure]
-        exact ⟨_, rfl, ⟨by simp, by simp [errAfter], rfl, rfl, rfl, rfl, ⟨l2, sk1, rfl⟩, by simp⟩⟩
+        exact ⟨_, rfl, ⟨by simp, by simp [errAfter], rfl, rfl, rfl, rfl, ⟨l2, false, rfl⟩, by simp⟩⟩
       · have hfe' := hfe
         try simp only [Step.rg] at hfe'
         simp only [hfe']
         obtain ⟨st', hrun, hdone⟩ := ih
           ({ st with mgr := { insts := pre ++ x.out :: xs.map (fun x => mkInst d x.rg) },
                      fileErr := appendEntityError st.fileErr x.sev, reported := x.sev :: st.reported,
-                     s := G l2 (t ++ renderRecs (xs.map Step.rg) (endsec sp tail)) sk1, total := st.total + 1,
+                     s := G l2 (t ++ renderRecs (xs.map Step.rg) (endsec sp tail)) false, total := st.total + 1,
                      valid := st.valid + 1 } : P2 F)
-          (pre ++ [x.out]) t l2 sk1 n ht rfl (by simp only [List.length_cons] at hf; omega) (by simp)
+          (pre ++ [x.out]) t l2 n ht rfl (by simp only [List.length_cons] at hf; omega) (by simp)
           (by
             intro i hi y hy
             simp only [List.mem_append, List.mem_singleton] at hi
@@ -367,7 +442,7 @@ theorem readDataSection_steps (ops : FloatOps F) (lex : LexCfg) (cfg : RWCfg) (h
       obtain ⟨st', hrun, hdone⟩ := readData2Loop_steps ops lex cfg d strict
         (Mgr.lookup d ({ insts := xs.map (fun x => mkInst d x.rg) } : Mgr F)) sp tail hsp xs
         ({ mgr := { insts := xs.map (fun x => mkInst d x.rg) }, fileErr := .null, total := 0, valid := 0, invalid := 0, incomplete := 0,
-           warnings := 0, s := G l2 (t ++ renderRecs (xs.map Step.rg) (endsec sp tail)) false } : P2 F) [] t l2 false
+           warnings := 0, s := G l2 (t ++ renderRecs (xs.map Step.rg) (endsec sp tail)) false } : P2 F) [] t l2
         ((t ++ renderRecs (xs.map Step.rg) (endsec sp tail)).length + 3) ht rfl
         (by have := renderRecs_length (xs.map Step.rg) (endsec sp tail); simp only [List.length_append, List.length_map] at this ⊢; omega)
         (by simp) (by intro i hi; simp at hi) hnd rfl h2
@@ -385,5 +460,337 @@ theorem readDataSection_steps (ops : FloatOps F) (lex : LexCfg) (cfg : RWCfg) (h
   · rw [f1, herr]
   · rw [f5, hv]
   · rw [f7, hrep]
+
+/-! ## parameter lists with any per-parameter severity -/
+
+/-- how `SDAI_Application_instance::STEPread` accumulates the severities of the attributes it reads -/
+def accum (err : Sev) (sevs : List Sev) : Sev :=
+  sevs.foldl (fun e sv => if sv.toInt ≤ Sev.usermsg.toInt then e.greater sv else e) err
+
+/-- `STEPattribute::STEPread` reads the token with severity `sev` to the value wherever it stands, in front of the
+    layout `after` and a delimiter, and rests at the delimiter; `skipws` stays as it was or is switched off -/
+def ParamRd (env : Env F) (strict : Bool) (p : Param F) (sev : Sev) : Prop :=
+  p.a.redefining = false ∧
+  (∃ c u, p.tok = c :: u ∧ isSpace c = false ∧ c ≠ 47) ∧
+  Seps p.before ∧
+  ∀ (l : List Byte) (sk : Bool) (d : Byte) (rest : List Byte), (d = 44 ∨ d = 41) →
+    ∃ sk', (sk' = sk ∨ sk' = false) ∧ attrSTEPread env strict p.a (G l (p.tok ++ (p.after ++ d :: rest)) sk) =
+      .ok (sev, p.v, G (p.after.reverse ++ (p.tok.reverse ++ l)) (d :: rest) sk')
+
+theorem skflag_trans {a b c : Bool} (h1 : b = a ∨ b = false) (h2 : c = b ∨ c = false) : c = a ∨ c = false := by
+  rcases h2 with rfl | rfl
+  · exact h1
+  · exact Or.inr rfl
+
+theorem readAttrs_params_sev (env : Env F) (strict : Bool) (qs : List (Param F × Sev)) (hne : qs ≠ [])
+    (hok : ∀ q ∈ qs, ParamRd env strict q.1 q.2) :
+    ∀ (err : Sev) (l : List Byte) (c : Byte) (sk : Bool) (rest : List Byte),
+      ∃ sk', (sk' = sk ∨ sk' = false) ∧
+        readAttrs env strict (qs.map (·.1.a)) err c (G l (renderParams (qs.map (·.1)) ++ rest) sk) =
+        .ok ⟨accum err (qs.map (·.2)), qs.map (·.1.v), G ((renderParams (qs.map (·.1))).reverse ++ l) rest sk'⟩ := by
+  induction qs with
+  | nil => exact absurd rfl hne
+  | cons q qs ih =>
+    intro err l c sk rest
+    obtain ⟨p, sev⟩ := q
+    obtain ⟨hred, ⟨c0, u0, htok, hc0, h47⟩, hbef, hread⟩ : ParamRd env strict p sev := hok (p, sev) (by simp)
+    cases qs with
+    | nil =>
+      obtain ⟨sk', hsk, hr⟩ := hread (p.before.reverse ++ l) sk 41 rest (Or.inr rfl)
+      refine ⟨sk', hsk, ?_⟩
+      simp only [List.map_cons, List.map_nil, renderParams]
+      unfold readAttrs
+      have e1 : p.before ++ (p.tok ++ (p.after ++ [41])) ++ rest = p.before ++ c0 :: (u0 ++ (p.after ++ 41 :: rest)) := by
+        rw [htok]; simp
+      rw [e1, readTokenSeparator_seps p.before hbef l c0 _ sk hc0 h47]
+      have e2 : c0 :: (u0 ++ (p.after ++ 41 :: rest)) = p.tok ++ (p.after ++ 41 :: rest) := by rw [htok]; simp
+      rw [e2]
+      simp only [hred, Bool.false_eq_true, if_false, hr, bind, Except.bind, pure, Except.pure]
+      rw [shiftInto_good c _ 41 rest sk' (by decide)]
+      simp [missingCheck, defaults, accum, htok]
+    | cons q2 qs' =>
+      obtain ⟨sk1, hsk1, hr⟩ := hread (p.before.reverse ++ l) sk 44 (renderParams ((q2 :: qs').map (·.1)) ++ rest) (Or.inl rfl)
+      obtain ⟨sk', hsk', hrec⟩ := ih (by simp) (fun x hx => hok x (by simp [hx]))
+        (if sev.toInt ≤ Sev.usermsg.toInt then err.greater sev else err)
+        (44 :: (p.after.reverse ++ (p.tok.reverse ++ (p.before.reverse ++ l)))) 44 sk1 rest
+      refine ⟨sk', skflag_trans hsk1 hsk', ?_⟩
+      simp only [List.map_cons, renderParams] at hrec ⊢
+      unfold readAttrs
+      have e1 : p.before ++ (p.tok ++ (p.after ++ 44 :: renderParams (q2.1 :: qs'.map (·.1)))) ++ rest =
+          p.before ++ c0 :: (u0 ++ (p.after ++ 44 :: (renderParams (q2.1 :: qs'.map (·.1)) ++ rest))) := by
+        rw [htok]; simp
+      rw [e1, readTokenSeparator_seps p.before hbef l c0 _ sk hc0 h47]
+      have e2 : c0 :: (u0 ++ (p.after ++ 44 :: (renderParams (q2.1 :: qs'.map (·.1)) ++ rest))) =
+          p.tok ++ (p.after ++ 44 :: (renderParams (q2.1 :: qs'.map (·.1)) ++ rest)) := by rw [htok]; simp
+      rw [e2]
+      simp only [List.map_cons] at hr
+      simp only [hred, Bool.false_eq_true, if_false, hr, bind, Except.bind, pure, Except.pure]
+      rw [shiftInto_good c _ 44 _ sk1 (by decide)]
+      have e3 : (!((44 : Byte) == 44 || (44 : Byte) == 41)) = false := by decide
+      have e4 : ((44 : Byte) == 41) = false := by decide
+      simp only [e3, e4, Bool.false_eq_true, if_false]
+      rw [hrec]
+      simp [htok, accum]
+
+theorem instSTEPread_params_sev (env : Env F) (strict : Bool) (qs : List (Param F × Sev)) (hne : qs ≠ [])
+    (hok : ∀ q ∈ qs, ParamRd env strict q.1 q.2) (l : List Byte) (sk : Bool) (rest : List Byte) :
+    ∃ sk', (sk' = sk ∨ sk' = false) ∧
+      instSTEPread env strict (qs.map (·.1.a)) (G l (40 :: (renderParams (qs.map (·.1)) ++ rest)) sk) =
+      .ok ⟨accum .null (qs.map (·.2)), qs.map (·.1.v), G ((40 :: renderParams (qs.map (·.1))).reverse ++ l) rest sk'⟩ := by
+  cases qs with
+  | nil => exact absurd rfl hne
+  | cons q qs =>
+    obtain ⟨p, sev⟩ := q
+    obtain ⟨hred, ⟨c0, u0, htok, hc0, h47⟩, hbef, hread⟩ : ParamRd env strict p sev := hok (p, sev) (by simp)
+    let p' : Param F := { p with before := [] }
+    have hok' : ∀ x ∈ (p', sev) :: qs, ParamRd env strict x.1 x.2 := by
+      intro x hx
+      rcases List.mem_cons.mp hx with rfl | hx
+      · exact ⟨hred, ⟨c0, u0, htok, hc0, h47⟩, Seps.blanks [] (by simp), hread⟩
+      · exact hok x (by simp [hx])
+    obtain ⟨sk', hsk, hr⟩ := readAttrs_params_sev env strict ((p', sev) :: qs) (by simp) hok' .null (p.before.reverse ++ 40 :: l) 40 sk rest
+    refine ⟨sk', hsk, ?_⟩
+    unfold instSTEPread
+    rw [show (G l (40 :: (renderParams (((p, sev) :: qs).map (·.1)) ++ rest)) sk).ws = G l (40 :: (renderParams (((p, sev) :: qs).map (·.1)) ++ rest)) sk
+      from ws_good0 l 40 _ sk (by decide)]
+    simp only [bind, Except.bind, pure, Except.pure]
+    rw [shiftInto_good 0 l 40 _ sk (by decide)]
+    simp only [bne_self_eq_false, Bool.false_eq_true, if_false, List.map_cons, List.isEmpty_cons]
+    have hhead : ∃ c1 u1, renderParams (p' :: qs.map (·.1)) ++ rest = c1 :: u1 ∧ isSpace c1 = false ∧ c1 ≠ 47 := by
+      cases hq : qs.map (·.1) with
+      | nil => exact ⟨c0, u0 ++ (p.after ++ 41 :: rest), by simp [renderParams, p', htok], hc0, h47⟩
+      | cons q qs' =>
+        exact ⟨c0, u0 ++ (p.after ++ 44 :: (renderParams (q :: qs') ++ rest)), by simp [renderParams, p', htok], hc0, h47⟩
+    obtain ⟨c1, u1, h1, hc1, h471⟩ := hhead
+    have e1 : renderParams (p :: qs.map (·.1)) ++ rest = p.before ++ c1 :: u1 := by
+      rw [renderParams_cons, List.append_assoc, h1]
+    rw [e1, readTokenSeparator_seps p.before hbef (40 :: l) c1 u1 sk hc1 h471, ← h1]
+    simp only [List.map_cons] at hr
+    have hpa : p'.a = p.a := rfl
+    have hpv : p'.v = p.v := rfl
+    rw [hpa, hpv] at hr
+    rw [hr]
+    simp [renderParams_cons p (qs.map (·.1))]
+    rfl
+
+/-- **`ReadInstance` on a record whose parameters are read with any severities** (`skipws` off, as in a data section):
+    every parameter is read to its value, the record's severity is the accumulated one, the stream is left right after
+    the record's `;` — by the `;` test when the severity does not trigger the resynchronisation, by the
+    resynchronisation otherwise -/
+theorem readInstance_params (ops : FloatOps F) (lex : LexCfg) (cfg : RWCfg) (d : Dict) (strict : Bool)
+    (hskip : cfg.skipInstanceSkipsComments = true) (st : P2 F)
+    (r : Rec F) (hlex : r.Lex) (qs : List (Param F × Sev)) (hqs : r.ps = qs.map (·.1))
+    (hok : ∀ q ∈ qs, ParamRd { ops := ops, lex := lex, cfg := cfg, dict := d, lookup := Mgr.lookup d st.mgr } strict q.1 q.2)
+    (hscan : ∀ q ∈ r.ps, ParamScan q) (l rest : List Byte) (hs : st.s = G l (r.text rest) false)
+    (inst : MInst F) (hfind : st.mgr.find? r.id = some inst) (hnew : inst.state = .new) (hcx : inst.complex = false)
+    (p : MPart F) (hparts : inst.parts = [p]) (e : EntityD) (hent : d.entity? p.name = some e)
+    (hattrs : e.attrs = r.ps.map (·.a)) :
+    ∃ l', readInstance ops lex cfg d strict st =
+      .ok { s := G l' rest false,
+            inst := some { inst with parts := [{ p with vals := r.ps.map (·.v) }], state := stateOf (accum .null (qs.map (·.2))) },
+            reported := some (accum .null (qs.map (·.2))), left := some .null } := by
+  have hne : qs ≠ [] := by
+    intro h; rw [h] at hqs; exact hlex.pne (by simpa using hqs)
+  have hrd : ∀ L, instSTEPread { ops := ops, lex := lex, cfg := cfg, dict := d, lookup := Mgr.lookup d st.mgr } strict
+      e.attrs (G L (40 :: (renderParams r.ps ++ r.t4 rest)) false) =
+        .ok ⟨accum .null (qs.map (·.2)), r.ps.map (·.v), G ((40 :: renderParams r.ps).reverse ++ L) (r.t4 rest) false⟩ := by
+    intro L
+    obtain ⟨sk', hsk, h⟩ := instSTEPread_params_sev _ strict qs hne hok L false (r.t4 rest)
+    have : sk' = false := by rcases hsk with h | h <;> exact h
+    subst this
+    rw [hattrs, hqs]
+    simpa [List.map_map, Function.comp_def] using h
+  by_cases hres : (cfg.errorResyncsFromStart && decide ((accum .null (qs.map (·.2))).toInt ≤ Sev.warning.toInt)) = true
+  · simp only [Bool.and_eq_true, decide_eq_true_eq] at hres
+    exact readInstance_resync ops lex cfg d strict hres.1 hskip st r hlex hscan l rest false hs inst hfind hnew hcx p hparts e hent
+      _ _ (fun L => ⟨_, hrd L, by rw [readTokenSeparator_skipws]⟩) hres.2
+  · exact readInstance_semi ops lex cfg d strict st r hlex l rest false hs inst hfind hnew hcx p hparts e hent _ _ false hrd
+      (by simpa using hres)
+
+/-! ## garbage in the place of a value: `CheckRemainingInput` skips to the delimiter and reports WARNING -/
+
+theorem skipTo_junk (cfg : LexCfg) (ds : List Byte) (junk : List Byte) (hj : ∀ b ∈ junk, delimAt cfg ds b = false)
+    (d : Byte) (hd : delimAt cfg ds d = true) (rest : List Byte) :
+    ∀ (c : Byte) (l : List Byte), skipTo cfg ds c l (junk ++ d :: rest) = (d, d :: (junk.reverse ++ l), rest, false) := by
+  induction junk with
+  | nil => intro c l; simp [skipTo, hd]
+  | cons b t ih =>
+    intro c l
+    have hb : delimAt cfg ds b = false := hj b (by simp)
+    simp only [List.cons_append, skipTo, hb, Bool.false_eq_true, if_false]
+    rw [ih (fun x hx => hj x (by simp [hx]))]
+    simp
+
+/-- a text without delimiters (and, where NUL counts as one, without NUL) that starts with neither a blank nor `/`,
+    in front of a delimiter: everything up to the delimiter is skipped as "invalid value", severity WARNING -/
+theorem cri_junk (cfg : LexCfg) (j0 : Byte) (js : List Byte) (hj0s : isSpace j0 = false) (hj047 : j0 ≠ 47)
+    (hj : ∀ b ∈ j0 :: js, delimAt cfg attrDelims b = false) (l rest : List Byte) (d : Byte) (f sk : Bool) (e : Sev)
+    (hd : d = 44 ∨ d = 41) :
+    checkRemainingInput cfg (some attrDelims)
+        { left := l, right := j0 :: (js ++ d :: rest), eof := false, fail := f, bad := false, skipws := sk } e =
+      (G ((j0 :: js).reverse ++ l) (d :: rest) sk, e.greater .warning) := by
+  have hdd : delimAt cfg attrDelims d = true := by
+    apply delimAt_of_isDelim; rcases hd with rfl | rfl <;> decide
+  have hss := sepSkip_stop cfg l [] j0 (js ++ d :: rest) sk (by simp) hj0s hj047
+  simp only [List.nil_append, List.reverse_nil] at hss
+  have hj0 : delimAt cfg attrDelims j0 = false := hj j0 (by simp)
+  have hsk := skipTo_junk cfg attrDelims (j0 :: js) hj d hdd rest j0 l
+  simp only [List.cons_append] at hsk
+  simp only [checkRemainingInput, IStream.clear, Bool.false_eq_true, if_false, hss, peekC_good, hj0, hsk, hdd, if_true]
+  rw [show IStream.putback d { left := d :: ((j0 :: js).reverse ++ l), right := rest, eof := false, fail := false, bad := false, skipws := sk } =
+    G ((j0 :: js).reverse ++ l) (d :: rest) sk from putback_good d _ rest sk]
+
+/-! ## which reader flags which violation (attribute level, any position in a file, any layout) -/
+
+/-- `$` for a required attribute in strict mode: INCOMPLETE, the stream rests at the delimiter -/
+theorem attr_dollar_required (env : Env F) (a : AttrD) (hopt : a.optional = false) (hder : a.derived = false)
+    (hcfg : env.lex.criSkipsComments = true) (l : List Byte) (sk : Bool) (seps : List Byte) (hs : Seps seps)
+    (d : Byte) (rest : List Byte) (hd : d = 44 ∨ d = 41) :
+    attrSTEPread env true a (G l (36 :: (seps ++ d :: rest)) sk) =
+      .ok (.incomplete, nullOf a, G (seps.reverse ++ 36 :: l) (d :: rest) sk) := by
+  unfold attrSTEPread
+  rw [show (G l (36 :: (seps ++ d :: rest)) sk).ws = G l (36 :: (seps ++ d :: rest)) sk from ws_good0 l 36 _ sk (by decide)]
+  simp only [bind, Except.bind, pure, Except.pure]
+  rw [show (G l (36 :: (seps ++ d :: rest)) sk).peekC = (36, G l (36 :: (seps ++ d :: rest)) sk) from peekC_good l 36 _ sk]
+  simp only [hder, Bool.false_eq_true, if_false, beq_self_eq_true, Bool.true_or, if_true]
+  rw [show (G l (36 :: (seps ++ d :: rest)) sk).ignore1 = G (36 :: l) (seps ++ d :: rest) sk from ignore1_good l 36 _ sk]
+  rw [cri_seps env.lex hcfg seps hs (36 :: l) rest d false sk .null hd]
+  simp [hopt]
+
+/-- `$` for a required aggregate (or any type for which the lenient mode has no filler value), either mode -/
+theorem attr_dollar_required_aggr (env : Env F) (strict : Bool) (a : AttrD) (ety : ElemTy) (hty : a.ty = .aggr ety)
+    (hopt : a.optional = false) (hder : a.derived = false)
+    (hcfg : env.lex.criSkipsComments = true) (l : List Byte) (sk : Bool) (seps : List Byte) (hs : Seps seps)
+    (d : Byte) (rest : List Byte) (hd : d = 44 ∨ d = 41) :
+    attrSTEPread env strict a (G l (36 :: (seps ++ d :: rest)) sk) =
+      .ok (.incomplete, nullOf a, G (seps.reverse ++ 36 :: l) (d :: rest) sk) := by
+  unfold attrSTEPread
+  rw [show (G l (36 :: (seps ++ d :: rest)) sk).ws = G l (36 :: (seps ++ d :: rest)) sk from ws_good0 l 36 _ sk (by decide)]
+  simp only [bind, Except.bind, pure, Except.pure]
+  rw [show (G l (36 :: (seps ++ d :: rest)) sk).peekC = (36, G l (36 :: (seps ++ d :: rest)) sk) from peekC_good l 36 _ sk]
+  simp only [hder, Bool.false_eq_true, if_false, beq_self_eq_true, Bool.true_or, if_true]
+  rw [show (G l (36 :: (seps ++ d :: rest)) sk).ignore1 = G (36 :: l) (seps ++ d :: rest) sk from ignore1_good l 36 _ sk]
+  rw [cri_seps env.lex hcfg seps hs (36 :: l) rest d false sk .null hd]
+  cases strict <;> simp [hopt, hty]
+
+/-- a value (anything but `*`, without delimiters) for a derived attribute: WARNING, skipped to the delimiter -/
+theorem attr_derived_value (env : Env F) (strict : Bool) (a : AttrD) (hder : a.derived = true)
+    (j0 : Byte) (js : List Byte) (hj0s : isSpace j0 = false) (hj047 : j0 ≠ 47) (hj042 : j0 ≠ 42)
+    (hj : ∀ b ∈ j0 :: js, delimAt env.lex attrDelims b = false)
+    (l : List Byte) (sk : Bool) (d : Byte) (rest : List Byte) (hd : d = 44 ∨ d = 41) :
+    attrSTEPread env strict a (G l (j0 :: (js ++ d :: rest)) sk) =
+      .ok (.warning, .derived, G ((j0 :: js).reverse ++ l) (d :: rest) sk) := by
+  unfold attrSTEPread
+  rw [show (G l (j0 :: (js ++ d :: rest)) sk).ws = G l (j0 :: (js ++ d :: rest)) sk from ws_good0 l j0 _ sk hj0s]
+  simp only [bind, Except.bind, pure, Except.pure]
+  rw [show (G l (j0 :: (js ++ d :: rest)) sk).peekC = (j0, G l (j0 :: (js ++ d :: rest)) sk) from peekC_good l j0 _ sk]
+  have e42 : (j0 == 42) = false := by simpa using hj042
+  simp only [hder, if_true, e42, Bool.false_eq_true, if_false]
+  rw [show checkRemainingInput env.lex (some attrDelims) (G l (j0 :: (js ++ d :: rest)) sk) Sev.warning =
+    (G ((j0 :: js).reverse ++ l) (d :: rest) sk, Sev.warning.greater .warning) from
+    cri_junk env.lex j0 js hj0s hj047 hj l rest d false sk .warning hd]
+  rfl
+
+/-- something that starts like no integer (a string, an enumeration item, a keyword, …; without delimiters) for an
+    INTEGER attribute: `ReadInteger` extracts nothing, `CheckRemainingInput` skips it: WARNING, value unset -/
+theorem attr_integer_junk (env : Env F) (strict : Bool) (a : AttrD) (hty : a.ty = .one .integer) (hder : a.derived = false)
+    (j0 : Byte) (js : List Byte) (hj0s : isSpace j0 = false) (hj047 : j0 ≠ 47) (hj036 : j0 ≠ 36)
+    (hj0d : isDigit j0 = false) (hj043 : j0 ≠ 43) (hj045 : j0 ≠ 45)
+    (hj : ∀ b ∈ j0 :: js, delimAt env.lex attrDelims b = false)
+    (l : List Byte) (sk : Bool) (d : Byte) (rest : List Byte) (hd : d = 44 ∨ d = 41) :
+    attrSTEPread env strict a (G l (j0 :: (js ++ d :: rest)) sk) =
+      .ok (.warning, .one (.atom .unset), G ((j0 :: js).reverse ++ l) (d :: rest) sk) := by
+  have hj0 : delimAt env.lex attrDelims j0 = false := hj j0 (by simp)
+  have h44 : j0 ≠ 44 := by intro h; subst h; simp [delimAt, isDelim, attrDelims] at hj0
+  have h41 : j0 ≠ 41 := by intro h; subst h; simp [delimAt, isDelim, attrDelims] at hj0
+  unfold attrSTEPread
+  rw [show (G l (j0 :: (js ++ d :: rest)) sk).ws = G l (j0 :: (js ++ d :: rest)) sk from ws_good0 l j0 _ sk hj0s]
+  simp only [bind, Except.bind, pure, Except.pure]
+  rw [show (G l (j0 :: (js ++ d :: rest)) sk).peekC = (j0, G l (j0 :: (js ++ d :: rest)) sk) from peekC_good l j0 _ sk]
+  have e36 : (j0 == 36) = false := by simpa using hj036
+  have e44 : (j0 == 44) = false := by simpa using h44
+  have e41 : (j0 == 41) = false := by simpa using h41
+  simp only [hder, Bool.false_eq_true, if_false, e36, e44, e41, Bool.or_self, hty]
+  rw [scalarNodeReadAttr_integer, scalarNodeRead_integer]
+  simp only [readInteger]
+  rw [show (G l (j0 :: (js ++ d :: rest)) sk).ws = G l (j0 :: (js ++ d :: rest)) sk from ws_good0 l j0 _ sk hj0s]
+  have hscan : scanInt longMin longMax l (j0 :: (js ++ d :: rest)) = (⟨0, true⟩, l, j0 :: (js ++ d :: rest)) := by
+    have e43 : (j0 == 43) = false := by simpa using hj043
+    have e45 : (j0 == 45) = false := by simpa using hj045
+    have hts : takeSign l (j0 :: (js ++ d :: rest)) = (false, l, j0 :: (js ++ d :: rest)) := by
+      unfold takeSign
+      split
+      · rename_i heq; simp at heq; exact absurd heq.1 hj045
+      · rename_i heq; simp at heq; exact absurd heq.1 hj043
+      · rfl
+    simp [scanInt, hts, spanDigits, hj0d]
+  rw [extractLong_G l j0 _ sk hj0s, hscan]
+  have hcri := cri_junk env.lex j0 js hj0s hj047 hj l rest d true sk
+  simp only [IStream.failed, Bool.or_true, Bool.true_or, Bool.not_true, Bool.false_eq_true, if_false, List.isEmpty_cons]
+  cases hrep : env.lex.intReportsFail <;>
+    simp only [Sev.warnIf, Bool.false_and, Bool.and_false, Bool.true_and, Bool.and_true, Bool.not_false, if_true, if_false,
+      Bool.false_eq_true, Bool.and_self] <;>
+    rw [hcri _ hd] <;> rfl
+
+/-- a reference `#id` to an instance the file does not have, or to one of a type that does not conform to the
+    attribute's entity type: WARNING, the attribute stays unset, the stream rests at the delimiter -/
+theorem attr_ref_bad (env : Env F) (strict : Bool) (a : AttrD) (tg : String) (hty : a.ty = .one (.entity tg)) (hder : a.derived = false)
+    (hcfg : env.lex.criSkipsComments = true) (ds : List Byte) (hne : ds ≠ []) (hds : ds.all isDigit = true)
+    (hhi : ((digitsVal ds 0 : Nat) : Int) ≤ intMax)
+    (hbad : refLookup env.lookup tg ((digitsVal ds 0 : Nat) : Int) ≠ .found)
+    (l : List Byte) (sk : Bool) (seps : List Byte) (hs : Seps seps)
+    (d : Byte) (rest : List Byte) (hd : d = 44 ∨ d = 41) :
+    attrSTEPread env strict a (G l (35 :: (ds ++ (seps ++ d :: rest))) sk) =
+      .ok (.warning, .one (.atom .unset),
+           G (seps.reverse ++ (ds.reverse ++ 35 :: l)) (d :: rest) sk) := by
+  have hnd := seps_head_not_digit seps hs d rest hd
+  have hint : isInteger ds = true := isInteger_unsigned ds hne hds
+  have hscan := scanInt_token longMin longMax (35 :: l) ds (seps ++ d :: rest) hint (Or.inr hnd)
+  have hss : splitSign ds = (false, ds) := splitSign_digits ds hne hds
+  have hden : denoteInteger ds = ((digitsVal ds 0 : Nat) : Int) := by simp [denoteInteger, hss]
+  obtain ⟨c, u, hcu⟩ : ∃ c u, ds = c :: u := by
+    cases ds with
+    | nil => exact absurd rfl hne
+    | cons c u => exact ⟨c, u, rfl⟩
+  have hcd : isDigit c = true := by rw [hcu] at hds; simp at hds; exact hds.1
+  have hcs : isSpace c = false := digit_not_space hcd
+  unfold attrSTEPread
+  rw [show (G l (35 :: (ds ++ (seps ++ d :: rest))) sk).ws = G l (35 :: (ds ++ (seps ++ d :: rest))) sk from ws_good0 l 35 _ sk (by decide)]
+  simp only [bind, Except.bind, pure, Except.pure]
+  rw [show (G l (35 :: (ds ++ (seps ++ d :: rest))) sk).peekC = (35, G l (35 :: (ds ++ (seps ++ d :: rest))) sk) from peekC_good l 35 _ sk]
+  have e36 : ((35 : Byte) == 36) = false := by decide
+  have e44 : ((35 : Byte) == 44) = false := by decide
+  have e41 : ((35 : Byte) == 41) = false := by decide
+  simp only [hder, Bool.false_eq_true, if_false, e36, e44, e41, Bool.or_self, hty]
+  rw [scalarNodeReadAttr_entity, scalarNodeRead_entity]
+  simp only [readEntityRef, refTail]
+  rw [show (G l (35 :: (ds ++ (seps ++ d :: rest))) sk).ws = G l (35 :: (ds ++ (seps ++ d :: rest))) sk from ws_good0 l 35 _ sk (by decide)]
+  rw [getChar_G l 35 _ sk (by decide)]
+  have hstream : G (35 :: l) (ds ++ (seps ++ d :: rest)) sk = G (35 :: l) (c :: (u ++ (seps ++ d :: rest))) sk := by rw [hcu]; rfl
+  simp only [Option.getD_some, beq_self_eq_true, Bool.true_or, Option.isSome_some, Bool.and_self, if_true]
+  have hscan' : scanInt longMin longMax (35 :: l) (c :: (u ++ (seps ++ d :: rest))) =
+      (⟨((digitsVal ds 0 : Nat) : Int), false⟩, ds.reverse ++ 35 :: l, seps ++ d :: rest) := by
+    have := hscan
+    rw [hcu] at this
+    simp only [List.cons_append] at this
+    rw [this, ← hcu, hss, hden]
+    have h2 : ¬ ((digitsVal ds 0 : Nat) : Int) > longMax := by
+      have : intMax ≤ longMax := by decide
+      omega
+    simp [h2]
+  have hnn : ¬ ((digitsVal ds 0 : Nat) : Int) < intMin := by
+    have : intMin ≤ 0 := by decide
+    omega
+  have hnh : ¬ ((digitsVal ds 0 : Nat) : Int) > intMax := by omega
+  rw [hstream, extractInt32_G (35 :: l) c _ sk hcs _ _ _ hscan' hnn hnh]
+  have hne2 : (seps ++ d :: rest).isEmpty = false := by
+    obtain ⟨x, y, hxy, _⟩ := hnd
+    rw [hxy]; rfl
+  have hcri := cri_seps env.lex hcfg seps hs (ds.reverse ++ 35 :: l) rest d false sk Sev.null hd
+  cases hlk : refLookup env.lookup tg ((digitsVal ds 0 : Nat) : Int) with
+  | found => exact absurd hlk hbad
+  | wrongType => simp [hne2, IStream.failed, hcri, hlk]; rfl
+  | missing => simp [hne2, IStream.failed, hcri, hlk]; rfl
+
 
 end StepModel.P21.RLemmas
